@@ -26,7 +26,7 @@ ASSUMPTIONS = [
 ]
 REQUIRED_CLASSES = ["nontrivial", "accept", "reject", "zero_area_rect", "zero_length", "vertical", "horizontal",
                     "near_edge_ulp", "both_outside_accept", "one_inside", "both_inside", "large_offset",
-                    "corner_region", "through_corner", "second_call_same_arguments"]
+                    "corner_region", "through_corner", "second_call_same_arguments", "points_as_tuples"]
 QUICK_SHARDS = 4
 
 plot_utils = sut.load("plot_utils")
@@ -89,8 +89,12 @@ def once(ctx, case, second=False):
         classes.add("corner_region")
 
     try:
-        (accept, seg), _lines = sut.call_budget(plot_utils.clip_segment,
-                                                ([[x1, y1], [x2, y2]], [[xmin, ymin], [xmax, ymax]]),
+        if case.get("tuples"):
+            # callers also hand in points as tuples (immutable): nothing may rely on writing into them
+            arg_seg, arg_rect = ((x1, y1), (x2, y2)), ((xmin, ymin), (xmax, ymax))
+        else:
+            arg_seg, arg_rect = [[x1, y1], [x2, y2]], [[xmin, ymin], [xmax, ymax]]
+        (accept, seg), _lines = sut.call_budget(plot_utils.clip_segment, (arg_seg, arg_rect),
                                                 line_budget=LINE_BUDGET)
     except BudgetExceeded as exc:
         ctx.record(case, classes, True)
@@ -99,6 +103,8 @@ def once(ctx, case, second=False):
         ctx.record(case, classes, True)
         ctx.fail("clip_segment raised %s: %s" % (type(exc).__name__, exc), case)
     classes.add("accept" if accept else "reject")
+    if case.get("tuples"):
+        classes.add("points_as_tuples")
     if second:
         classes.add("second_call_same_arguments")
     if accept and not inside1 and not inside2:
@@ -268,6 +274,8 @@ def cases(draw):
     case = {"seg": [p, q], "rect": [[xmin, ymin], [xmax, ymax]], "ulp": used_ulp[0], "offset": offset}
     if draw(st.integers(0, 5)) == 0:
         case["again"] = scale * draw(st.sampled_from([17.0, 0.5, 1000.0]))
+    elif draw(st.integers(0, 4)) == 0:
+        case["tuples"] = True
     return case
 
 
@@ -283,6 +291,8 @@ def lattice_grid():
                 case = {"seg": [list(p), list(q)], "rect": rect, "ulp": False, "offset": False}
                 if (int(p[0]) + 2 * int(q[1])) % 5 == 0:
                     case["again"] = 10.0
+                elif (int(p[1]) + 3 * int(q[0])) % 4 == 0:
+                    case["tuples"] = True
                 yield case
 
 
